@@ -53,6 +53,38 @@ CLAIMED["C18"] = dict(cat="exploration",
    text="A recording afero.Fs sits under syslutil.ChrootFs; every path of <=5 (quick) / <=7 (thorough, exhaustive across shards) segments over {'', '.', '..', 'a', 'a.b', 'a b'}, relative and absolute, x 4 roots x all 13 operations (both Rename arguments) is decided by a segment-stack reference resolver: outside => error and no call reaches the recorder; inside => exactly the canonical path. Plus rapid-drawn longer paths and import statements compiled through loader's ChrootFs wrapping.",
    note="trusts the reference resolver (no filepath calls); remote (//host/...) imports do not go through the project filesystem and are out of scope",
    technique="exhaustive enumeration + property-based generation against a reference path resolver with a recording filesystem")
+CLAIMED["C03"] = dict(cat="exploration",
+   text="Metamorphic relation between two compilations: every corpus file (424, compiled in place; accepted and rejected sets recorded) and generated specs, transformed by compositions of indent scaling x1..4, tab respelling of any 4-space run (aligned or not), blank / whitespace-only line insertion and whole-line comment insertion at declaration boundaries (a conservative classifier refuses unsafe boundaries and counts them); acceptance must agree and the models must be proto.Equal after a protoreflect walk clears every source context.",
+   note="trusts the soundness argument for the transformation set derived from the lexer's hidden-token rules (DESIGN section 4/C03); string continuation lines and view bodies are left untouched",
+   technique="metamorphic property-based testing (layout transformations) over corpus sweep + generated specs")
+CLAIMED["C04"] = dict(cat="exploration",
+   text="Metamorphic relation joined vs. split: a partition plan (members into 1-6 blocks, one type's fields over re-opened type blocks, a REST path re-opened with another verb, an endpoint declared twice, header on any block) laid out over 1-4 files of a random import DAG with shuffled blocks and imports; compile(joined) must be proto.Equal to compile(split) after clearing source contexts and imports (composite primary keys compared as sets).",
+   note="app attributes/long name/mixins stay in the header block (order-sensitive by definition); subscriptions not generated here",
+   technique="metamorphic property-based testing over generated partitions and import graphs")
+CLAIMED["C07"] = dict(cat="exploration",
+   text="k specs (always including a mixin chain of >=3 apps whose chain order differs from sorted order) compiled by up to 64 goroutines with rapid-drawn GOMAXPROCS and spin offsets, every result byte-compared (text and JSON) with a sequential baseline that is itself repeated 20 times and in fresh processes; the check runs under the race detector (race build) where a report is a violation; a soak sub-property runs thousands of concurrent compilations in a process of its own with a memory bound (regression check for the repaired lexer-state leak).",
+   note="the harness does not own interleavings inside ANTLR: exploration with a dynamic race oracle, not enumeration; a time-out is inconclusive",
+   technique="property-based concurrency testing: differential against sequential baseline + Go race detector + memory-bound soak")
+CLAIMED["C08"] = dict(cat="exploration",
+   text="A recording renderer writes generated single- and multi-file specs (re-opened apps and types, REST verbs incl. PATCH at depth 0-2, tabs, noise lines) and remembers file/line/rune-column of every element; the compiled model must carry, per element kind, one location per declaration in walk order with exactly the recorded start, end >= start, start inside the file on a non-blank character, and the deprecated single location equal to the last list entry.",
+   note="element kinds that carry no location are listed in the rule; tab = one column",
+   technique="property-based testing with an intent oracle for positions (recording renderer)")
+CLAIMED["C09"] = dict(cat="exploration",
+   text="Models from the corpus and from generated specs (hostile attribute strings; mixin chains, collectors, views, dotted and %-escaped names via templates) x {pb, pb.json, textpb} x {indented, compact} x {stream, file writers}: decode must be proto.Equal, JSON must be valid and carry the same tree; a root file that only imports the compiled file must compile to proto.Equal apps; the CLI pb command is cross-checked (compact JSON modulo locations).",
+   note="suffix dispatch is part of the oracle; a native fuzz target for the decoders exists but is not part of a tier",
+   technique="round-trip property-based testing (encode/decode/re-import) over generated and corpus models")
+CLAIMED["C11"] = dict(cat="exploration",
+   text="Generated OpenAPI 2 (JSON/YAML, hostile names, also via 'import doc as App'), XSD, and sparsely OpenAPI 3 and SQL DDL documents (the arr.ai importers cost seconds per document), each validated first (own structural pass + kin-openapi); import must succeed, the text must compile, every schema/type/table, property/column (kind, optionality, array-ness, reference, key marks) and endpoint (params, body, responses) must be present, and a second import must be byte-identical.",
+   note="supported subset = constructs occurring in the importers' own test corpora; OpenAPI 3 / SQL explored two orders of magnitude more shallowly than OpenAPI 2 / XSD",
+   technique="property-based testing with a foreign-intent oracle (completeness), compile-back, and repetition")
+CLAIMED["C12"] = dict(cat="exploration",
+   text="Generated REST-style applications (recursive type graphs, enums, optional/sequence/set/reference fields, path/query/header/body params, typed returns) exported through the calls cmd_export.go makes, as OpenAPI 3 and Swagger 2 in YAML and JSON: both serialisations must decode to one tree, validate (own $ref-resolving structural pass, plus kin-openapi where it copes with the reference cycles), be complete and carry nothing extra (sets, not order), and re-import to the same structure under an explicit abstraction function.",
+   note="empty server URL is normalised before the library validator (legal by the schema, rejected only by kin-openapi); header parameters accepted under identifier or name= attribute",
+   technique="property-based testing: validity + completeness oracle over decoded documents, export/re-import round trip")
+CLAIMED["C19"] = dict(cat="exploration",
+   text="Per output kind (pb text/JSON/binary, sequence/integration/data-model PlantUML, four Mermaid generators, OpenAPI3/Swagger yaml+json, spanner/proto export, create and delta SQL, imported Sysl from OAS2/XSD, relmod.Normalize as multisets) the output is produced 2-10 times in one worker process, once on a second compilation, and in 2-3 fresh processes, plus CLI commands run three times; bytes must be identical. Non-trivial is measured per kind from a census showing >=2 entries in the maps that feed it.",
+   note="a kind that crashes on a model is skipped for that model and counted (crashes belong to C20); unstable kinds are findings per output kind",
+   technique="metamorphic repetition testing across runs and processes over generated multi-entry models")
 NOT_YET = {}
 def main():
     checks = []
